@@ -35,7 +35,9 @@ for p in props:
             "design_ref": "DESIGN.md section 6 (%s)" % pid,
         },
         "level_note": getattr(mod, "LEVEL_NOTE", "; ".join(getattr(mod, "TRUSTED", []))),
-        "technique": getattr(mod, "TECHNIQUE", "Lean 4 machine-checked proof over an executable model; model tied to source by AST extraction + differential correspondence"),
+        "technique": getattr(mod, "TECHNIQUE", "Lean 4 machine-checked proof over an executable model; model tied to source by AST extraction + differential correspondence")
+        + (" + regenerated control skeletons of the %d transcribed functions compared with the literals the model was written against"
+           % len(mod.SHAPES) if getattr(mod, "SHAPES", None) else ""),
     })
 
 fix_commits = subprocess.run(["git", "-C", "/repo", "log", "--format=%h %s"], stdout=subprocess.PIPE, text=True).stdout
